@@ -88,3 +88,28 @@ def check_no_shared_state(R, prog, P, prefixes, floor_functions):
         R.ok("NO-SHARED-STATE", "%d functions of %s: no module-level container written, nothing memoised, no mutable default changed"
              % (nfun, ", ".join(prefixes)), prefixes[0])
     return nfun
+
+
+def truth_tested_names(fnode):
+    """{name: node} for bare names used as a truth value (if / while / conditional expression / assert, through and / or / not)"""
+    out = {}
+
+    def operands(t):
+        if isinstance(t, ast.BoolOp):
+            for v in t.values:
+                yield from operands(v)
+        elif isinstance(t, ast.UnaryOp) and isinstance(t.op, ast.Not):
+            yield from operands(t.operand)
+        else:
+            yield t
+    for n in walk_shallow(fnode):
+        tests = []
+        if isinstance(n, (ast.If, ast.While, ast.IfExp, ast.Assert)):
+            tests.append(n.test)
+        elif isinstance(n, ast.comprehension):
+            tests += n.ifs
+        for t in tests:
+            for o in operands(t):
+                if isinstance(o, ast.Name):
+                    out.setdefault(o.id, o)
+    return out
